@@ -130,19 +130,25 @@ def concrete_spec(op, nodes, di, bi, S, extra=None):
     raise ValueError(op)
 
 
-def native_run(op, g, S, extra=None):
-    """Run the real operation; returns a comparable value in the format of concrete_spec."""
+# operations documented to accept a single Variable as well as an iterable
+ACCEPT_VARIABLE = ("subgraph", "remove_in_edges", "remove_out_edges", "remove_nodes_from", "ancestors_inclusive", "descendants_inclusive", "get_markov_blanket")
+
+
+def native_run(op, g, S, extra=None, form="set"):
+    """Run the real operation; returns a comparable value in the format of concrete_spec.  `form` selects how the
+    node set is handed over: a set, a list (reversed), a frozenset, or - for a singleton - the bare Variable."""
     from y0.graph import NxMixedGraph
 
     def gtuple(r):
         return ("graph", set(r.nodes()), set(r.directed.edges()), {frozenset(e) for e in r.undirected.edges()}, set(r.undirected.nodes()))
 
+    arg = {"set": set, "list": lambda x: list(reversed(list(x))), "frozenset": frozenset, "variable": lambda x: list(x)[0]}[form](S)
     if op in ("subgraph", "remove_in_edges", "remove_out_edges", "remove_nodes_from"):
-        r = getattr(g, op)(set(S))
+        r = getattr(g, op)(arg)
         t = gtuple(r)
         return t[:4] if t[1] == t[4] else ("graph-node-sets-differ", t[1], t[4])
     if op in ("ancestors_inclusive", "descendants_inclusive", "get_markov_pillow", "get_markov_blanket"):
-        return ("set", set(getattr(g, op)(set(S))))
+        return ("set", set(getattr(g, op)(arg)))
     if op == "districts":
         return ("set", set(g.districts()))
     if op == "get_district":
@@ -413,7 +419,7 @@ def replay_model(op, q, model):
     return check_concrete(op, nodes, di, bi, sorted(S, key=str), extra)
 
 
-def check_concrete(op, nodes, di, bi, S, extra=None):
+def check_concrete(op, nodes, di, bi, S, extra=None, form="set"):
     from y0.graph import NxMixedGraph
 
     g = NxMixedGraph()
@@ -424,10 +430,10 @@ def check_concrete(op, nodes, di, bi, S, extra=None):
     for u, v in bi:
         g.add_undirected_edge(u, v)
     before = (set(g.nodes()), set(g.directed.edges()), set(g.undirected.edges()), set(g.undirected.nodes()))
-    rec = {"op": op, "nodes": [n.name for n in nodes], "di": [[u.name, v.name] for u, v in di], "bi": [[u.name, v.name] for u, v in bi], "S": [s.name for s in S], "extra": ([e.name for e in extra] if isinstance(extra, list) else (extra.name if extra is not None else None))}
+    rec = {"op": op, "nodes": [n.name for n in nodes], "di": [[u.name, v.name] for u, v in di], "bi": [[u.name, v.name] for u, v in bi], "S": [s.name for s in S], "extra": ([e.name for e in extra] if isinstance(extra, list) else (extra.name if extra is not None else None)), "form": form}
     want = concrete_spec(op, nodes, di, bi, S, extra)
     try:
-        got = native_run(op, g, S, extra)
+        got = native_run(op, g, S, extra, form)
     except Exception as e:  # noqa: BLE001
         rec["observed"] = f"raised {type(e).__name__}: {short(e, 120)}"
         rec["expected"] = short(want, 300)
@@ -488,10 +494,14 @@ def native_corpus(op, n):
                 if op == "topological_sort":
                     if S or not _acyclic(U, di):
                         continue
-                cnt += 1
-                r = check_concrete(op, U, di, bi, list(S), extra)
-                if r["bad"] and len(bad) < 3:
-                    bad.append(r)
+                forms = ["set"]
+                if op in ACCEPT_VARIABLE + ("get_markov_pillow",):
+                    forms += ["list", "frozenset"] + (["variable"] if len(S) == 1 and op in ACCEPT_VARIABLE else [])
+                for form in forms:
+                    cnt += 1
+                    r = check_concrete(op, U, di, bi, list(S), extra, form)
+                    if r["bad"] and len(bad) < 3:
+                        bad.append(r)
     return cnt, bad
 
 
@@ -597,7 +607,7 @@ def replay(payload: dict) -> int:
         extra = [V(e) for e in extra]
     elif extra is not None:
         extra = V(extra)
-    r = check_concrete(payload["op"], [V(n) for n in payload["nodes"]], [(V(u), V(v)) for u, v in payload["di"]], [(V(u), V(v)) for u, v in payload["bi"]], [V(s) for s in payload["S"]], extra)
+    r = check_concrete(payload["op"], [V(n) for n in payload["nodes"]], [(V(u), V(v)) for u, v in payload["di"]], [(V(u), V(v)) for u, v in payload["bi"]], [V(s) for s in payload["S"]], extra, payload.get("form", "set"))
     print(f"{r['op']} on nodes={r['nodes']} di={r['di']} bi={r['bi']} S={r['S']}")
     print("observed:", r["observed"])
     print("expected:", r["expected"])
